@@ -28,7 +28,9 @@ static std::vector<void*> inject_pages;
 static const size_t KEY_GUARD = 64, STR_GUARD = 64;
 
 void init(int ntasks_max) {
+    env::inject_pages_p = &inject_pages;
     start_tasks(ntasks_max);
+    scan_readonly_mappings();
     int n = polyseed_get_num_langs();
     for (int i = 0; i < n; ++i) {
         const polyseed_lang* l = polyseed_get_lang(i);
@@ -59,6 +61,22 @@ static __attribute__((noinline)) void call_with_pad(Task* t, const std::function
     asm volatile("" ::: "memory");
 }
 
+} namespace env {
+std::vector<void*>* inject_pages_p = nullptr;
+void nested_inject(int gen, unsigned opt) {
+    size_t pg = (size_t)sysconf(_SC_PAGESIZE);
+    u8* page = (u8*)mmap(nullptr, pg, PROT_READ | PROT_WRITE, MAP_PRIVATE | MAP_ANONYMOUS, -1, 0);
+    if (inject_pages_p) inject_pages_p->push_back(page);
+    polyseed_dependency* d = (polyseed_dependency*)(page + pg - sizeof(polyseed_dependency));
+    make_deps(d, gen, opt & 7);
+    E.cur_gen = gen % NGEN; E.cur_opt = opt & 7;
+    bool was = E.in_inject; E.in_inject = true;
+    polyseed_inject(d);
+    E.in_inject = was;
+    memset(page, 0xEE, pg);
+    mprotect(page, pg, PROT_NONE);
+}
+} namespace sim {
 static bool is_ctor(int k) { return k == OP_CREATE || k == OP_LOAD || k == OP_DECODE || k == OP_DECODEX; }
 static bool needs_seed(int k) { return k == OP_STORE || k == OP_ENCODE || k == OP_CRYPT || k == OP_KEYGEN || k == OP_GETB || k == OP_GETF || k == OP_ISENC || k == OP_FREE; }
 
@@ -70,7 +88,7 @@ struct CallFlags { bool preempt; };
 // Runs on the task thread.
 static void exec_op(Task* t, OpRec& rec, bool preempt) {
     const Op& op = rec.op;
-    int s = op.slot & 7;
+    int s = op.slot & 63;
     rec.task = t->id;
     if ((is_ctor(op.kind) && t->slots[s]) || (needs_seed(op.kind) && !t->slots[s]) || (E.cur_gen < 0 && op.kind != OP_INJECT && op.kind != OP_ENABLE && op.kind != OP_LANGQ && op.kind != OP_CONFIG)) {
         rec.skipped = true; rec.done = true;
@@ -92,6 +110,7 @@ static void exec_op(Task* t, OpRec& rec, bool preempt) {
         E.norm_full_len = ((op.a >> 9) & 1) != 0;
 #endif
         E.misalign = ((op.a >> 10) & 1) != 0;
+        E.norm_zero_on_invalid = ((op.a >> 14) & 1) != 0;
         E.lifo_reuse = ((op.a >> 11) & 1) != 0;
         {   // the process environment is configuration too: the time zone must not matter
             static const char* TZS[4] = {nullptr, "JST-9", "EST5EDT", "NZST-12NZDT"};
@@ -271,8 +290,8 @@ struct Checker {
     // after a foreign mismatch: take the library's own view of the slot so that the history can continue
     void resync(OpRec& rec, Task* t) {
         foreign.clear();
-        auto key = std::make_pair(rec.task, rec.op.slot & 7);
-        polyseed_data* p = (polyseed_data*)t->slots[rec.op.slot & 7];
+        auto key = std::make_pair(rec.task, rec.op.slot & 63);
+        polyseed_data* p = (polyseed_data*)t->slots[rec.op.slot & 63];
         if (rec.op.kind == OP_ENABLE) mask = (unsigned)rec.op.a & 7;
         if (!p) { seeds.erase(key); return; }
         if (is_ctor(rec.op.kind) && rec.status == ST_OK && have_pending && !seeds.count(key)) seeds[key] = pending;
@@ -321,7 +340,7 @@ struct Checker {
 
     void ledger(OpRec& rec, Task* t) {
         const Op& op = rec.op;
-        auto key = std::make_pair(rec.task, op.slot & 7);
+        auto key = std::make_pair(rec.task, op.slot & 63);
         for (auto& e : rec.ev) {
             if ((e.kind == EV_FREE || e.kind == EV_LIBC_FREE) && e.bad) { fail(A_LEDGER, rec.idx, "free received a " + e.name + " pointer: " + e.str()); return; }
             if (e.kind == EV_MEMZERO && e.bad) { fail(A_LEDGER, rec.idx, strf("the wipe function received NULL with length %llu (something that never came from the allocator)", (unsigned long long)e.n)); return; }
@@ -381,7 +400,7 @@ struct Checker {
         crypt_related = false;
         have_pending = false;
         if (rec.skipped) return;
-        auto key = std::make_pair(rec.task, op.slot & 7);
+        auto key = std::make_pair(rec.task, op.slot & 63);
         auto it = seeds.find(key);
         bool have = it != seeds.end();
         if (have && is_crypt_image(it->second)) crypt_related = true;
@@ -475,6 +494,7 @@ struct Checker {
             add_needles_text(phrase, "phrase text");
             std::string norm = model::lib_normalise(phrase);
             if (norm != phrase) add_needles_text(norm, "normalised phrase text");
+            { std::string lower = norm; bool ch = false; for (auto& c : lower) if (c >= 'A' && c <= 'Z') { c = (char)(c + 32); ch = true; } if (ch) add_needles_text(lower, "phrase text (lower-cased)"); }
             int li = -1;
             if (op.kind == OP_DECODEX) { li = libmap[op.a % libmap.size()]; if (li < 0) { st->add("unpredicted_unknown_language"); goto unpredicted; } }
             else if (!registry_matches) { st->add("unpredicted_registry_changed"); goto unpredicted; }
@@ -538,7 +558,9 @@ struct Checker {
             const SeamEvent* k = nullptr; int nk = 0;
             for (auto& e : rec.ev) if (e.kind == EV_KDF) { k = &e; ++nk; }
             if (nk != 1) { fail(A_KDF_CRYPT, rec.idx, strf("polyseed_crypt called the KDF %d times, expected once", nk)); return; }
-            if (k->reading != norm.size() || k->a != bytes(norm.begin(), norm.end())) {
+            bool pw_valid = true; model::nfkd_raw(pwd, &pw_valid);
+            if (!pw_valid) st->add("unpredicted_invalid_utf8_password");     // what reaches the KDF for a password that is not UTF-8 is not specified
+            else if (k->reading != norm.size() || k->a != bytes(norm.begin(), norm.end())) {
                 fail(A_KDF_CRYPT, rec.idx, strf("KDF password is %s (length %llu), expected NFKD(password) without terminator = %s (length %zu)", hexs(k->a).c_str(), (unsigned long long)k->reading, hexs(norm).c_str(), norm.size())); return; }
             if (k->b != bytes(model::CRYPT_SALT, model::CRYPT_SALT + 16) || k->name != "saltlen=16") { fail(A_KDF_CRYPT, rec.idx, "KDF salt is " + hexs(k->b) + " (" + k->name + "), expected " + hexs(model::CRYPT_SALT, 16)); return; }
             if (k->n != 10000) { fail(A_KDF_CRYPT, rec.idx, strf("KDF iterations %llu, expected 10000", (unsigned long long)k->n)); return; }
@@ -555,11 +577,11 @@ struct Checker {
             {
                 OpRec dummy = rec;
                 // result state
-                u8 st32[32]; polyseed_store((polyseed_data*)t->slots[op.slot & 7], st32);
+                u8 st32[32]; polyseed_store((polyseed_data*)t->slots[op.slot & 63], st32);
                 u8 exp[32]; model::serialise(m, exp);
                 if (memcmp(st32, exp, 32)) { fail(A_CRYPT_STATE, rec.idx, "after polyseed_crypt the seed serialises to " + hexs(st32, 32) + ", expected " + hexs(exp, 32)); return; }
             }
-            observe(rec, (polyseed_data*)t->slots[op.slot & 7], m, true);
+            observe(rec, (polyseed_data*)t->slots[op.slot & 63], m, true);
             break;
         }
         case OP_KEYGEN: {
@@ -703,10 +725,10 @@ static RunResult run_ops(const Plan& p, const RunOpts& o) {
     size_t nplan = ops.size();
     for (size_t i = 0;; ++i) {
         if (i == ops.size()) {
-            if (i > nplan + 64) break;
+            if (i > nplan + 600) break;
             // teardown: release every seed that is still live (checked like any other operation)
             bool any = false;
-            for (int ti = 0; ti < ntasks && !any; ++ti) for (int s = 0; s < 8 && !any; ++s) if (tasks[ti].slots[s]) {
+            for (int ti = 0; ti < ntasks && !any; ++ti) for (int s = 0; s < 64 && !any; ++s) if (tasks[ti].slots[s]) {
                 Op f; f.kind = OP_FREE; f.task = ti; f.slot = s; ops.push_back(f); any = true;
             }
             if (!any) break;
@@ -741,7 +763,7 @@ static RunResult run_ops(const Plan& p, const RunOpts& o) {
         for (auto& b : E.blocks) if (b.live) { r.v.found = true; r.v.prop = p.prop; r.v.oracle = "model"; r.v.cls = "ledger"; r.v.op = (int)ops.size(); r.v.msg = strf("blk%d is still allocated after every seed was freed", b.id); break; }
     }
     // leave the library without live seeds even if the run stopped early
-    for (int ti = 0; ti < ntasks; ++ti) for (int s = 0; s < 8; ++s) tasks[ti].slots[s] = nullptr;
+    for (int ti = 0; ti < ntasks; ++ti) for (int s = 0; s < 64; ++s) tasks[ti].slots[s] = nullptr;
     r.log_hash = log.h;
     r.st.merge(E.stats);
     E.stats.c.clear();
@@ -765,9 +787,9 @@ static void run_script_job(Task* t, TaskScript* sc, bool preempt) {
 
 static void clear_slots_and_free(RunResult& r) {
     // free what the scripts left behind (not part of any transcript)
-    for (int ti = 0; ti < ntasks; ++ti) for (int s = 0; s < 8; ++s) if (tasks[ti].slots[s]) {
+    for (int ti = 0; ti < ntasks; ++ti) for (int s = 0; s < 64; ++s) if (tasks[ti].slots[s]) {
         Task* t = &tasks[ti]; void* p = t->slots[s];
-        OpRec rec; rec.idx = 100000 + ti * 8 + s;
+        OpRec rec; rec.idx = 100000 + ti * 64 + s;
         run_on_task(t, [&] { t->cur = &rec; polyseed_free((polyseed_data*)p); t->cur = nullptr; }, r, -1);
         t->slots[s] = nullptr;
     }
@@ -820,6 +842,7 @@ static RunResult run_preempt(const Plan& p, const RunOpts& o) {
     Rng srng(o.sched_seed ? o.sched_seed : 1);
     E.sched_rng = Rng(mix64(o.sched_seed, 77));
     bool generated = p.sched.empty() && o.sched_strategy >= 0;
+    bool coarse = p.ops.size() > 1000;
     E.seam_chase = generated && (o.sched_strategy % 5) == 3;
     E.write_chase = generated && (o.sched_strategy % 5) == 4 && E.monitor;
     E.yield_at_op = generated && (o.sched_strategy % 5) == 0;
@@ -849,6 +872,7 @@ static RunResult run_preempt(const Plan& p, const RunOpts& o) {
             default: { q.task = runnable[srng.below(runnable.size())]; q.edges = 1 + (u32)srng.below(srng.chance(1, 2) ? 64 : 4096); break; }   // 3: seam-chasing, 4: write-chasing ride on short quanta
             }
         }
+        if (coarse && generated && q.edges < (1u << 24)) q.edges *= 512;     // long (soak) histories: coarser quanta, the same strategies
         Task* t = &tasks[q.task];
         t->countdown = q.edges;
         t->ticks_in_quantum = 0;
@@ -873,7 +897,7 @@ static RunResult run_preempt(const Plan& p, const RunOpts& o) {
         }
         if (st == TS_BUDGET) { r.v.found = true; r.v.prop = p.prop; r.v.oracle = "liveness"; r.v.cls = "step-budget"; r.v.msg = "a call did not return within the step budget"; break; }
         if (E.mon_violation.found) break;
-        if (total_quanta > 4000000) { r.v.found = true; r.v.prop = p.prop; r.v.oracle = "liveness"; r.v.cls = "quanta"; r.v.msg = "schedule did not terminate"; break; }
+        if (total_quanta > 40000000) { r.v.found = true; r.v.prop = p.prop; r.v.oracle = "liveness"; r.v.cls = "quanta"; r.v.msg = "schedule did not terminate"; break; }
     }
     E.monitor = false; E.seam_chase = E.write_chase = E.yield_at_op = false;
     r.sched_hash = sched_h;
@@ -898,7 +922,7 @@ static RunResult run_preempt(const Plan& p, const RunOpts& o) {
     std::vector<TaskScript> solo; build(solo);
     // block numbering restarts so that the transcripts are comparable
     for (auto& b : E.blocks) if (b.base) { unpoison(b.p, b.size); free(b.base); }
-    E.blocks.clear(); E.last_freed = -1; memset(E.task_blk_seq, 0, sizeof E.task_blk_seq); (void)nblocks_before;
+    E.blocks.clear(); clear_block_index(); E.last_freed = -1; memset(E.task_blk_seq, 0, sizeof E.task_blk_seq); (void)nblocks_before;
     // the concurrent transcripts were rendered with their own numbering; renumber by replaying is not needed because
     // block ids enter the transcripts per task (see below)
     for (int k = 0; k < nt; ++k) {
@@ -927,7 +951,7 @@ static RunResult run_preempt(const Plan& p, const RunOpts& o) {
 RunResult run_plan(const Plan& p, const RunOpts& o) {
     reset_run();
     cleanup_pages();
-    E.cur_gen = -1; E.cur_opt = 0; E.fill = 0; E.fill_seed = 0; E.kdf_mode = 0; E.monitor = false; E.norm_full_len = false; E.misalign = false; E.lifo_reuse = false; E.no_race_oracle = getenv("POLYSIM_NO_R") != nullptr;
+    E.cur_gen = -1; E.cur_opt = 0; E.fill = 0; E.fill_seed = 0; E.kdf_mode = 0; E.monitor = false; E.norm_full_len = false; E.misalign = false; E.lifo_reuse = false; E.norm_zero_on_invalid = false; E.no_race_oracle = getenv("POLYSIM_NO_R") != nullptr;
     E.stats.c.clear();
     for (int ti = 0; ti < ntasks; ++ti) { memset(tasks[ti].slots, 0, sizeof tasks[ti].slots); tasks[ti].locks_held = 0; tasks[ti].blocked = false; }
     RunResult r = (p.mode == "preempt") ? run_preempt(p, o) : run_ops(p, o);
